@@ -67,7 +67,10 @@ def gen_removed(run):
             code = rng.choice([1, 2, 2, 0, 5])
             a = rng.choice(live) if rng.random() < 0.9 else rng.randrange(0, nn)
             calls.append(call(code, a, 0, None, data if code != 2 else data[:1]))
-        cases.append(Case("causalrm", list(tree) + [len(removed)] + removed, [tuple(c) for c in calls], {"removed": removed, "n": nn}))
+        # one case in four: the graph object first held a bigger model (all active) and was cleared before this model was built
+        prefill = rng.randrange(1, 4) if rng.random() < 0.25 else 0
+        if prefill and rng.random() < 0.5: removed = []
+        cases.append(Case("causalrm", list(tree) + [len(removed)] + removed + [prefill], [tuple(c) for c in calls], {"removed": removed, "n": nn, "prefill": prefill}))
     return cases
 
 
@@ -79,7 +82,7 @@ def oracle_removed(case, impl, spec):
     if toks == [-999]: return "the harness call panicked outside a reasoning call"
     a = case.ints()
     top, p = parse_tree(a, 0)
-    nrem = a[p]; removed = set(a[p + 1:p + 1 + nrem]); p += 1 + nrem
+    nrem = a[p]; removed = set(a[p + 1:p + 1 + nrem]); p += 1 + nrem + 1      # + the prefill count
     calls = parse_calls(a, p)
     segs = split_out(toks, calls)
     if segs is None or len(segs) != len(calls): return "output does not match the calls"
@@ -106,7 +109,7 @@ def removed_phase(run, d, bins, cases_unused):
 
 
 def main():
-    run_property("C11", PROPS, gen_cases, CHECKS, RULE + " SECOND PHASE: graphs of singletons from which 1-2 causaloids were removed again (remove_causaloid) before reasoning: wrapper-active and the aggregates must equal a recount over the LIVE members (oracle on the implementation's own output; the Coq model covers add-only graphs)", cross=removed_phase)
+    run_property("C11", PROPS, gen_cases, CHECKS, RULE + " SECOND PHASE: graphs of singletons from which 1-2 causaloids were removed again (remove_causaloid) before reasoning, a quarter of them built in a graph object that had held a bigger, fully active model and was cleared: wrapper-active and the aggregates must equal a recount over the LIVE members (oracle on the implementation's own output; the Coq model covers add-only graphs)", cross=removed_phase)
 
 
 _replay = mk_replay("C11", CHECKS)
